@@ -245,7 +245,7 @@ CHECKS = {
         "design_ref": "DESIGN.md §5 C19",
     },
     "C20": {
-        "level": "model_checking", "variants": ["main", "sched"], "shards": 6, "deadline_quick": 110, "deadline_thorough": 1800,
+        "level": "model_checking", "variants": ["main", "sched"], "shards": 8, "deadline_quick": 110, "deadline_thorough": 1800,
         "engine": "E-WORLD + E-SCHED",
         "technique": "model checking of the implementation: (a) controlled-scheduler exploration of every interleaving of concurrent BasicSeqnoValidator calls (store Get/Put are scheduling points), "
                      "(b) explicit-state BFS by replay around a real node with the validator installed",
